@@ -66,6 +66,11 @@ macro_rules! unchecked_new {
             }
             let want = match sep { None => false, Some(p) => p >= 1 && hrp_ok && data_ok && !(up && lo) };
             assert!(r.is_ok() == want);
+            if let (Ok(u), Some(p)) = (&r, sep) {
+                // the split is at the LAST '1': hrp = s[..p], data = s[p+1..] (checksum still attached)
+                assert!(u.hrp.len() == p);
+                assert!(u.data.len() == N - p - 1 && u.data.as_ptr() == a[p + 1..].as_ptr());
+            }
             kani::cover!(N < 2 || r.is_ok());
             kani::cover!(r.is_err());
         });
